@@ -172,7 +172,7 @@ theorem tractAt_mem {τ : TState} {T : Nat} (h : T < τ.tracts.length) : τ.trac
 
 theorem tractAt_set_self (σ : State) (ts : List Tract) (t : Tract) {T : Nat} (hT : T < ts.length) :
     (⟨σ, ts.set T t⟩ : TState).tractAt T = t := by
-  simp [TState.tractAt, List.getD, List.getElem?_set, hT]
+  simp [TState.tractAt, List.getD, hT]
 
 theorem TInv.of_keeps {τ : TState} {σ' : State} {S : Nat → Prop} (h : TInv τ) (k : Keeps S τ.st σ') :
     TInv ⟨σ', τ.tracts⟩ :=
